@@ -172,6 +172,47 @@ def autoreset_wrapper(U, rep, tier):
               where=f.where(), construct='obs, pipeline_state := done\' ? first_* : stepped; reward, done unchanged')
 
 
+class DictScript(Script):
+  """The scripted environment with a DICT observation ({'state': ..., 'aux': ...}): wrappers must treat the observation
+  as a pytree (restore / select every leaf)."""
+
+  def _split(self, obs):
+    return {'state': obs, 'aux': np.array([uf('aux', obs, i) for i in range(2)], dtype=object)}
+
+  def reset(self, rng):
+    st = Script.reset(self, rng)
+    st.f['obs'] = self._split(st.f['obs'])
+    return st
+
+  def step(self, state, action):
+    flat = Struct(state.cls, dict(state.f, obs=state.f['obs']['state']), home=state.home)
+    st = Script.step(self, flat, action)
+    st.f['obs'] = self._split(st.f['obs'])
+    return st
+
+
+def autoreset_dict_obs(U, rep):
+  """R15.2 with a dict observation: after an episode end EVERY observation leaf is the one from reset."""
+  f = U.func(TW + '.AutoResetWrapper.step')
+  I = new_interp(U.repo)
+  S = DictScript(I)
+  w = mk(I, 'AutoResetWrapper', S.env())
+  s0 = I.apply(I.attr(w, 'reset'), [symarr('key', (2,))], {})
+  cur = clone(s0)
+  cur.f['obs'] = {'state': symarr('o', (2,)), 'aux': symarr('x', (2,))}
+  cur.f['pipeline_state'] = Struct('PS', {'q': symarr('p', (3,))})
+  cur.f['done'] = batom('prevdone')
+  a = symarr('act', (2,))
+  out = I.apply(I.attr(w, 'step'), [clone(cur), a], {})
+  nxt = S.step(cur, a)
+  d = nxt.f['done']
+  ok = isinstance(out.f['obs'], dict) and set(out.f['obs']) == {'state', 'aux'} and all(
+      same(out.f['obs'][k], where(d, s0.f['obs'][k], nxt.f['obs'][k])) for k in ('state', 'aux'))
+  rep.check(ok, 'R15.2', 'AutoResetWrapper.step restores every leaf of a dict observation exactly when done',
+            'with a dict observation, after an episode end some observation leaf is not the one from reset', where=f.where(),
+            construct="obs = {'state': ..., 'aux': ...}: obs[k] := done' ? first_obs[k] : stepped[k]")
+
+
 def eval_wrapper(U, rep, tier):
   f = U.func(TW + '.EvalWrapper.step')
   I = new_interp(U.repo)
@@ -357,6 +398,7 @@ def acting(U, rep, tier):
 def run(U, rep, tier):
   episode_wrapper(U, rep, tier)
   autoreset_wrapper(U, rep, tier)
+  autoreset_dict_obs(U, rep)
   eval_wrapper(U, rep, tier)
   composite(U, rep, tier)
   create_order(U, rep)
